@@ -23,8 +23,11 @@
   are COMPARED with the real validator, no longer skipped. About `overlapMemoRun`: `overlap_memo_run_no_crash` (never
   crashes), `overlap_memo_no_false_alarm` (clause ⇒ silent, on every document, no side condition),
   `overlap_memo_neutral_partial` (un-memoised silent ⇒ memoised silent, under `OverlapHyps`).
-  Open: `OverlapMemoNeutralStatement` - the memo never LOSES a report; the correspondence cross-checks it on every
-  generated document (`memo:crosscheck`, evidence key `outside_model`).
+  "The memo never LOSES a report" is PROVED in `Props/C06_overlap_memo_complete.lean` (`overlap_memo_complete`,
+  `overlap_memo_never_loses`: under `ParentsAgree`, no fragment named "", `WfIds` - cyclic fragment graphs included);
+  `OverlapMemoNeutralStatement` as a whole under the side conditions of the un-memoised theorem
+  (`overlap_memo_neutral_side`); what stays open is "un-memoised silent ⇒ memoised silent" outside them, and the
+  correspondence cross-checks it on every generated document (`memo:crosscheck`, evidence key `outside_model`).
 -/
 import PyGqlModel.Lemmas.ValidateOverlapMemo2
 import PyGqlModel.Lemmas.ValidateOverlapMemoSound
@@ -157,7 +160,9 @@ theorem overlap_memo_no_false_alarm (s : SchemaD) (fx : Fixes) (h7 : fx.v7 = tru
   exact this.2
 
 /-- verdict-neutrality of the memo: the memoised rule and the un-memoised rule (the one of the theorems) give the
-    same verdict. OPEN in this generality; the per-run cross-check `memo:crosscheck` of the correspondence stands in -/
+    same verdict. OPEN in this generality (only `NoCrash`); proved with `ParentsAgree`, `OverlapSide`, `WfIds` added:
+    `overlap_memo_neutral_side` (`Props/C06_overlap_memo_complete.lean`); the per-run cross-check `memo:crosscheck` of the
+    correspondence covers the rest -/
 def OverlapMemoNeutralStatement : Prop :=
   ∀ (s : SchemaD) (fx : Fixes) (d : Doc), fx.v7 = true → NoCrash s fx d →
     ((overlapMemoRun s fx d).1 = 0 ↔ Silent s fx .overlappingFieldsCanBeMerged d)
@@ -165,8 +170,8 @@ def OverlapMemoNeutralStatement : Prop :=
 /-- **verdict-neutrality, the half "the memo never ADDS a report"**: under the side conditions of the rule's
     equivalence (`OverlapHyps`: parents agree, well-formed spreads, the un-memoised run does not crash - all three
     follow from the driver's static checks on ranked documents, `overlapHyps_of_wf_ranked`), if the un-memoised rule is
-    silent so is the memoised one. (The other half - the memo never LOSES a report - needs the certificate argument of
-    `ValidateOverlapCert*` redone with a third memo; open.) -/
+    silent so is the memoised one. (The other half - the memo never LOSES a report - is `overlap_memo_never_loses` of
+    `Props/C06_overlap_memo_complete.lean`: the certificate argument redone over both memos.) -/
 theorem overlap_memo_neutral_partial (s : SchemaD) (fx : Fixes) (h7 : fx.v7 = true) (d : Doc)
     (hpa : Spec.ParentsAgree s d) (hsc : OverlapSide s d) (hnc : NoCrash s fx d)
     (hsil : Silent s fx .overlappingFieldsCanBeMerged d) : (overlapMemoRun s fx d).1 = 0 :=
